@@ -24,7 +24,7 @@ LEVEL = "fault_enumeration"
 RULE = ("part A: {h1, h1tls, h2, h2pk, fwd} x {GET, POST streamed} x {1, 3 concurrent callers} x retries in {0,2} x "
         "flavours x (every network op x every documented fault kind); part B: HTTP/2 with 3 concurrent requests x "
         "GOAWAY sent at (head|end of request n) x last-stream-id in {0, previous, this, all} x {GET, POST bytes, POST "
-        "iterator}; distinct+non-trivial = (type, shape, callers, retries, flavour, fault kind, op kind, trace phase) "
+        "iterator, POST 150 kB (beyond the initial window, so the uploader itself reads the GOAWAY)} x seeded op latencies; distinct+non-trivial = (type, shape, callers, retries, flavour, fault kind, op kind, trace phase) "
         "resp. (when, n, last, shape, flavour)")
 ASSUMPTIONS = ["a call's bytes are attributed by the contextvar set in the caller's task/thread; HTTP/2 heads by the "
                "decoded X-Token", "request bytes 'started' = fault fell in a send_request_* / receive_response_* trace phase"]
@@ -53,14 +53,22 @@ async def one_call(sc, shape, name):
         r = await api.request("GET", sc.url(), headers=hdrs, extensions=ext)
     elif shape == "post-bytes":
         r = await api.request("POST", sc.url(), headers=hdrs, content=b"B" * 2000, extensions=ext)
+    elif shape == "post-big":
+        # larger than the 65,535-byte initial window: the upload has to wait for WINDOW_UPDATE frames, so it is
+        # the uploading task itself that reads whatever the server sent meanwhile (a GOAWAY, for instance)
+        body = api.body([b"g" * 30000] * 5)
+        r = await api.request("POST", sc.url(), headers=hdrs, content=body, extensions=ext)
     else:
         body = api.body([b"a" * 700, b"b" * 700, b"c" * 600])
         r = await api.request("POST", sc.url(), headers=hdrs, content=body, extensions=ext)
     return r.status, r.content[:30]
 
 
-async def run_many(flavor, ctype, shape, n, retries, fault=None, h2_script=None):
+async def run_many(flavor, ctype, shape, n, retries, fault=None, h2_script=None, lat_seed=None):
     sc = Sc(ctype, flavor, max_connections=3, resp_delay=0.5, retries=retries)
+    if lat_seed is not None:
+        lr = random.Random(lat_seed)
+        sc.net.latency = lambda kind, idx: lr.choice([0.0, 0.0, 0.001, 0.01])
     if h2_script is not None:
         for o in sc.origins:
             o.h2_script = dict(h2_script)
@@ -196,54 +204,57 @@ def run_part_b(case):
         for when in ("head", "end"):
             for nreq in (0, 1, 2):
                 for last in (0, "prev", "this", 2 ** 31 - 1):
-                    script = {"data_chunk": 1000, "actions": [{"when": (when, nreq), "do": "goaway", "last": last}]}
-                    sc, outcomes, info, run = await run_many(flavor, case["ctype"], shape, 3, 0, h2_script=script)
-                    cnt["runs"] += 1
-                    cnt["goaway_runs"] += 1
-                    ctx = {"case": case, "goaway": {"when": when, "n": nreq, "last": last},
-                           "outcomes": {k: repr(o) for k, o in outcomes.items()}}
-                    sigs.add(f"B|{flavor}|{shape}|{when}|{nreq}|{last}")
-                    if run.kind == "hang":
-                        v("goaway-hang", "callers hang after GOAWAY", ctx)
-                        continue
-                    heads = judge_common(sc, outcomes, cnt, v, ctx)
-                    cnt["oracle_no_stream_after_goaway"] += 1
-                    for o in sc.origins:
-                        for a in o.anomalies:
-                            if a["kind"] == "h2-ledger:stream-opened-after-goaway":
-                                v("stream-opened-after-goaway", repr(a), ctx)
-                            elif a["kind"].startswith("h2-ledger:") or a["kind"] == "h2-server-role-error":
-                                v("goaway-protocol-anomaly:" + a["kind"], repr(a), ctx)
-                    for tok, reqs in heads.items():
-                        refused = [r for r in reqs if getattr(r, "refused_by_goaway", False)]
-                        counted = [r for r in reqs if not getattr(r, "refused_by_goaway", False)]
-                        o = outcomes.get(tok)
-                        if refused:
-                            cnt["goaway_refused_streams"] += 1
-                            # provably unprocessed: the client may re-send it once elsewhere; either way the
-                            # caller gets an answer or a documented error
-                            if o is not None and o.kind == "ok":
-                                cnt["goaway_resent_ok"] += 1
-                                if len(counted) != 1:
-                                    v("refused-request-answered-without-resend", f"{tok}", ctx)
-                                else:
-                                    rs = counted[0]
-                                    want = {"get": b"", "post-bytes": b"B" * 2000, "post-iter": b"a" * 700 + b"b" * 700 + b"c" * 600}[shape]
-                                    if bytes(rs.body) != want:
-                                        v(f"resent-request-body-mismatch:{shape}", f"re-sent request of {tok} carried "
-                                          f"{len(rs.body)} body bytes, caller's body has {len(want)}", ctx)
-                            elif o is not None and o.kind == "exc" and not documented(o.exc):
-                                v("refused-request-undocumented-exception:" + exc_name(o.exc), repr(o), ctx)
-                        elif counted:
-                            r0 = counted[0]
-                            covered = (sc.origins[0].conns and True)
-                            if o is not None and o.kind == "ok":
-                                cnt["goaway_streams_completed_below"] += 1
-                            elif o is not None and o.kind == "exc" and not documented(o.exc):
-                                v("goaway-undocumented-exception:" + exc_name(o.exc), repr(o), ctx)
-                    if not sample:
-                        sample.update(ctx)
-                    await sc.api.close_pool()
+                  for lat_seed in case.get("lat_seeds", [None]):
+                      script = {"data_chunk": 1000, "actions": [{"when": (when, nreq), "do": "goaway", "last": last}]}
+                      sc, outcomes, info, run = await run_many(flavor, case["ctype"], shape, 3, 0, h2_script=script,
+                                                               lat_seed=lat_seed)
+                      cnt["runs"] += 1
+                      cnt["goaway_runs"] += 1
+                      ctx = {"case": case, "goaway": {"when": when, "n": nreq, "last": last},
+                             "outcomes": {k: repr(o) for k, o in outcomes.items()}}
+                      sigs.add(f"B|{flavor}|{shape}|{when}|{nreq}|{last}|{lat_seed}")
+                      if run.kind == "hang":
+                          v("goaway-hang", "callers hang after GOAWAY", ctx)
+                          continue
+                      heads = judge_common(sc, outcomes, cnt, v, ctx)
+                      cnt["oracle_no_stream_after_goaway"] += 1
+                      for o in sc.origins:
+                          for a in o.anomalies:
+                              if a["kind"] == "h2-ledger:stream-opened-after-goaway":
+                                  v("stream-opened-after-goaway", repr(a), ctx)
+                              elif a["kind"].startswith("h2-ledger:") or a["kind"] == "h2-server-role-error":
+                                  v("goaway-protocol-anomaly:" + a["kind"], repr(a), ctx)
+                      for tok, reqs in heads.items():
+                          refused = [r for r in reqs if getattr(r, "refused_by_goaway", False)]
+                          counted = [r for r in reqs if not getattr(r, "refused_by_goaway", False)]
+                          o = outcomes.get(tok)
+                          if refused:
+                              cnt["goaway_refused_streams"] += 1
+                              # provably unprocessed: the client may re-send it once elsewhere; either way the
+                              # caller gets an answer or a documented error
+                              if o is not None and o.kind == "ok":
+                                  cnt["goaway_resent_ok"] += 1
+                                  if len(counted) != 1:
+                                      v("refused-request-answered-without-resend", f"{tok}", ctx)
+                                  else:
+                                      rs = counted[0]
+                                      want = {"get": b"", "post-bytes": b"B" * 2000, "post-iter": b"a" * 700 + b"b" * 700 + b"c" * 600,
+                                              "post-big": b"g" * 150000}[shape]
+                                      if bytes(rs.body) != want:
+                                          v(f"resent-request-body-mismatch:{shape}", f"re-sent request of {tok} carried "
+                                            f"{len(rs.body)} body bytes, caller's body has {len(want)}", ctx)
+                              elif o is not None and o.kind == "exc" and not documented(o.exc):
+                                  v("refused-request-undocumented-exception:" + exc_name(o.exc), repr(o), ctx)
+                          elif counted:
+                              r0 = counted[0]
+                              covered = (sc.origins[0].conns and True)
+                              if o is not None and o.kind == "ok":
+                                  cnt["goaway_streams_completed_below"] += 1
+                              elif o is not None and o.kind == "exc" and not documented(o.exc):
+                                  v("goaway-undocumented-exception:" + exc_name(o.exc), repr(o), ctx)
+                      if not sample:
+                          sample.update(ctx)
+                      await sc.api.close_pool()
 
     run_flavor(flavor, None, main, seed=case["seed"])
     return {"viol": viol, "counters": cnt, "sigs": sorted(sigs), "sample": sample or None}
@@ -268,9 +279,10 @@ def plan(tier, seed):
                         cases.append({"part": "A", "ctype": ctype, "shape": shape, "n": n, "retries": retries,
                                       "flavor": flavor, "tier": tier, "seed": r.randrange(1 << 30)})
     for ctype in ("h2", "h2pk"):
-        for shape in ("get", "post-bytes", "post-iter"):
+        for shape in ("get", "post-bytes", "post-iter", "post-big"):
             for flavor in ("asyncio", "trio"):
                 cases.append({"part": "B", "ctype": ctype, "shape": shape, "flavor": flavor, "tier": tier,
-                              "seed": r.randrange(1 << 30)})
+                              "seed": r.randrange(1 << 30),
+                              "lat_seeds": [None, 1, 2] if tier == "quick" else [None] + list(range(1, 12))})
     cases.sort(key=lambda c: (c["part"] == "A", -c.get("n", 3)))
     return cases
